@@ -82,11 +82,18 @@ impl BitmapEvent {
                     rle_16_decompress(&self.data, self.width as usize, self.height as usize, &mut result)?;
                     result
                 } else {
-                    let mut result = vec![0 as u16; self.width as usize * self.height as usize];
-                    for i in 0..self.height {
-                        for j in 0..self.width {
-                            let src = (((self.height - i - 1) * self.width + j) * 2) as usize;
-                            result[(i * self.width + j) as usize] = (self.data[src + 1] as u16) << 8 | self.data[src] as u16;
+                    // uncompressed rows are stored bottom-up
+                    let width = self.width as usize;
+                    let height = self.height as usize;
+                    let stride = width * 2;
+                    if self.data.len() < stride * height {
+                        return Err(Error::RdpError(RdpError::new(RdpErrorKind::InvalidSize, "Bitmap data too short for its dimensions")))
+                    }
+                    let mut result = vec![0 as u16; width * height];
+                    for i in 0..height {
+                        for j in 0..width {
+                            let src = (height - i - 1) * stride + j * 2;
+                            result[i * width + j] = (self.data[src + 1] as u16) << 8 | self.data[src] as u16;
                         }
                     }
                     result
